@@ -294,6 +294,12 @@ func (cs *ContractSet) loadFile(path string) error {
 				}
 			}
 			name = strings.TrimSpace(name)
+			for k := range formals {
+				formals[k] = strings.TrimSpace(formals[k])
+			}
+			if len(formals) == 1 && formals[0] == "" {
+				formals = nil
+			}
 			fs := append([]string{name}, flags...)
 			full := qualify(pkg, name)
 			cur = &FuncContract{Name: full, Pkg: pkg, Loops: map[int]*LoopSpec{}, NoSafety: map[string]bool{}, Safety: map[string]bool{}, Where: w, File: path, Props: fileProps, Params: formals}
